@@ -207,6 +207,7 @@ func buildHarness(h *Harness, dir string, race bool) (string, *InstrReport, erro
 type workerResult struct {
 	rep     *Report
 	crashed bool
+	partial *Report // the violations a crashed worker had recorded
 	log     string
 	infl    string
 }
@@ -272,6 +273,13 @@ func runWorkers(bin string, ck *Check, tier, replay, dir string, n int, deadline
 				r.crashed = true
 				if err != nil {
 					r.log += "\n" + err.Error()
+				}
+				// what the worker had found before it died
+				if pb, perr := os.ReadFile(out + ".partial"); perr == nil {
+					var rp Report
+					if json.Unmarshal(pb, &rp) == nil {
+						r.partial = &rp
+					}
 				}
 			}
 			res[i] = r
@@ -388,6 +396,10 @@ func runCheck(id, tier, replay string) int {
 		}
 		rs := runWorkers(bin, &ck2, tier, replay, dir, nw, deadline, tag)
 		for i, r := range rs {
+			if r.crashed && r.partial != nil {
+				merged.add(r.partial, p.tag)
+				merged.Exhaustive = false
+			}
 			if r.crashed {
 				if ck.CrashIsViolation && r.infl != "" {
 					var cas interface{}
